@@ -135,6 +135,7 @@ func (eng *Engine) verifyFunc(fn *ssa.Function) (res *FuncResult) {
 			res.Imprecise = append(res.Imprecise, k)
 		}
 	}()
+	vc.deadline = time.Now().Add(90 * time.Second)
 	st := newState()
 	alloc0 := vc.get(st, "$alloc")
 	vc.assume(sx("<", "1", alloc0))
@@ -555,7 +556,18 @@ func cmdCheck(args []string) int {
 	close(jobCh)
 	wg2.Wait()
 
-	return report(eng, root, *prop, *tier, seed, results, missing, jobsObligs(jobs), solverTime, solverCount, loadS, genS, time.Since(t0).Seconds(), *verbose, *noEvidence)
+	obs := jobsObligs(jobs)
+	if *prop == "C19" {
+		for _, fo := range eng.runFrameSweep() {
+			ob := &Obligation{Name: fo.Name, Kind: "frame-global", Props: []string{"C19"}, Solver: "frame-analysis", Result: "proved"}
+			if !fo.OK {
+				ob.Result = "refuted"
+				ob.Output = fo.Reason + " (" + fo.Pos + ")"
+			}
+			obs = append(obs, ob)
+		}
+	}
+	return report(eng, root, *prop, *tier, seed, results, missing, obs, solverTime, solverCount, loadS, genS, time.Since(t0).Seconds(), *verbose, *noEvidence)
 }
 
 type job struct {
